@@ -88,6 +88,29 @@ func c13Convmap(c *Ctx) {
 					}
 				}
 			}
+			// a value built through a constructor function of the library: its arguments are the field initialisers
+			if cc, isCall := i.(*ssa.Call); isCall {
+				if sm := nodeCtor(c, calleeFunc(&cc.Call)); sm != nil && sm.T.Obj().Pkg() != nil && (sm.T.Obj().Pkg().Path() == pkgRoot || sm.T.Obj().Pkg().Path() == pkgProto) {
+					if initialised[sm.T] == nil {
+						initialised[sm.T] = map[string]bool{}
+					}
+					for k, dst := range sm.fields {
+						initialised[sm.T][dst.Name()] = true
+						if k >= len(cc.Call.Args) {
+							continue
+						}
+						src := srcField(cc.Call.Args[k])
+						if src == nil {
+							continue
+						}
+						nStores++
+						key := fmt.Sprintf("%s: %s.%s", safeFname(fn), sm.T.Obj().Name(), dst.Name())
+						c.r.check(dst.Name() == src.Name(), rule, key, "initialised (through "+safeFname(calleeFunc(&cc.Call))+") from the source's field "+src.Name(),
+							"field "+dst.Name()+" of the converted value is initialised (through "+safeFname(calleeFunc(&cc.Call))+") from the source's field "+src.Name()+": columns/values/counts end up in the wrong place", c.w.ipos(i))
+					}
+				}
+				return
+			}
 			st, ok := i.(*ssa.Store)
 			if !ok {
 				return
@@ -239,6 +262,10 @@ type kindCase struct {
 func c13KindCase(c *Ctx, te, f *ssa.Function, in func(ssa.Instruction) bool, fromVal func(ssa.Value) bool, want, wname string, depth int) kindCase {
 	res := kindCase{okOps: true}
 	var node *ssa.Alloc
+	// the node may also be built by a constructor function of the library (rules_r8.go): the operands must then be
+	// arguments of that call which the constructor stores into the node
+	var ctorCall *ssa.Call
+	var ctorS *ctorSum
 	delegated := map[*ssa.Call]bool{}
 	// follow: the case returns what helper call dc yields
 	follow := func(dc *ssa.Call, at ssa.Instruction) {
@@ -320,6 +347,13 @@ func c13KindCase(c *Ctx, te, f *ssa.Function, in func(ssa.Instruction) bool, fro
 			return
 		}
 		al, _ := peel(mi.X).(*ssa.Alloc)
+		if al == nil {
+			if cc, isCall := peel(mi.X).(*ssa.Call); isCall {
+				if sm := nodeCtor(c, calleeFunc(&cc.Call)); sm != nil {
+					ctorCall, ctorS = cc, sm
+				}
+			}
+		}
 		got := namedOf(mi.X.Type())
 		if got == nil || got.Obj().Name() != want {
 			g := "?"
@@ -356,7 +390,14 @@ func c13KindCase(c *Ctx, te, f *ssa.Function, in func(ssa.Instruction) bool, fro
 		if r0 != nil {
 			for _, u := range usesOf(r0) {
 				switch x := u.(type) {
+				case *ssa.Call:
+					if x == ctorCall && ctorArgField(ctorCall, ctorS, r0) != nil {
+						stored = true // Not(expr)
+					}
 				case *ssa.Store:
+					if ctorArgField(ctorCall, ctorS, r0) != nil {
+						stored = true // And(a, b): element of the variadic array of the constructor call
+					}
 					// direct: node.Expr = res ; or element of the variadic array of an append
 					if fa, ok := x.Addr.(*ssa.FieldAddr); ok && node != nil && peel(fa.X) == ssa.Value(node) {
 						stored = true
@@ -435,6 +476,9 @@ func c13KindCase(c *Ctx, te, f *ssa.Function, in func(ssa.Instruction) bool, fro
 				if fa, ok := st.Addr.(*ssa.FieldAddr); ok && node != nil && peel(fa.X) == ssa.Value(node) {
 					stored = true
 				}
+			}
+			if cc, ok := u.(*ssa.Call); ok && cc == ctorCall && ctorArgField(ctorCall, ctorS, r0) != nil {
+				stored = true // And(exprs...)
 			}
 		}
 		if !stored {
